@@ -70,6 +70,9 @@ func copyBlock(v reflect.Value, block Block) error {
 		}
 	}
 
+	// struct field name -> block key stored in it
+	filled := map[string]string{}
+
 	setField := func(name string, x any) error {
 		var f reflect.StructField
 		var ok bool
@@ -92,6 +95,11 @@ func copyBlock(v reflect.Value, block Block) error {
 		if !f.IsExported() {
 			return fmt.Errorf("found field %q but is unexported", f.Name)
 		}
+
+		if prev, dup := filled[f.Name]; dup {
+			return fmt.Errorf("%q and %q both map to struct field %s", prev, name, f.Name)
+		}
+		filled[f.Name] = name
 
 		// the field may be promoted from an embedded struct: follow the whole index
 		fv, err := v.FieldByIndexErr(f.Index)
